@@ -733,8 +733,10 @@ func c07Property(useLdb bool) func(c *pbt.C) {
 		} else {
 			m.mgr = db.NewMemDBManager(db.NewMemDB())
 		}
-		// optional long prefix so that cache-size boundaries are crossed (thorough tier)
-		if pbt.Tier() == "thorough" && c.Weighted("long-prefix", 30, 1) == 1 {
+		// optional long prefix so that the far-view cache (views more than 360 versions behind the frontier) and
+		// the cache-size boundaries are crossed
+		// (the in-memory manager replays its whole history for every old view: long prefixes only in the thorough tier)
+		if (useLdb || pbt.Tier() == "thorough") && c.Weighted("long-prefix", map[bool]int{true: pbt.Scale(70, 20), false: 40}[useLdb], 1) == 1 {
 			n := c.Int("long-prefix.n", 380, 470)
 			c.Class("more-than-400-versions")
 			for i := 0; i < n; i++ {
